@@ -935,6 +935,7 @@ class Server:
             acquired=False,
             restart_offset=0,
             transfer_offset=0,
+            passive_lock=asyncio.Lock(),
             _dispatcher=get_current_task(),
         )
         connection.path_io = self.path_io_factory(
@@ -1500,16 +1501,18 @@ class Server:
                     timeout=connection.socket_timeout,
                 )
 
-        if not connection.future.passive_server.done():
-            coro = self._start_passive_server(connection, handler)
-            try:
-                connection.passive_server = await coro
-            except errors.NoAvailablePort:
-                connection.response("421", ["no free ports"])
-                return False
-            code, info_template = "227", "listen socket created {address}"
-        else:
-            code, info_template = "227", "listen socket already exists {address}"
+        # pipelined PASV/EPSV must not start two listeners for one session
+        async with connection.passive_lock:
+            if not connection.future.passive_server.done():
+                coro = self._start_passive_server(connection, handler)
+                try:
+                    connection.passive_server = await coro
+                except errors.NoAvailablePort:
+                    connection.response("421", ["no free ports"])
+                    return False
+                code, info_template = "227", "listen socket created {address}"
+            else:
+                code, info_template = "227", "listen socket already exists {address}"
 
         for sock in connection.passive_server.sockets:
             if sock.family == socket.AF_INET:
@@ -1549,16 +1552,18 @@ class Server:
             code, info = "522", ["custom protocols support not implemented"]
             connection.response(code, info)
             return True
-        if not connection.future.passive_server.done():
-            coro = self._start_passive_server(connection, handler)
-            try:
-                connection.passive_server = await coro
-            except errors.NoAvailablePort:
-                connection.response("421", ["no free ports"])
-                return False
-            code, info = "229", ["listen socket created"]
-        else:
-            code, info = "229", ["listen socket already exists"]
+        # pipelined PASV/EPSV must not start two listeners for one session
+        async with connection.passive_lock:
+            if not connection.future.passive_server.done():
+                coro = self._start_passive_server(connection, handler)
+                try:
+                    connection.passive_server = await coro
+                except errors.NoAvailablePort:
+                    connection.response("421", ["no free ports"])
+                    return False
+                code, info = "229", ["listen socket created"]
+            else:
+                code, info = "229", ["listen socket already exists"]
 
         for sock in connection.passive_server.sockets:
             if sock.family in (socket.AF_INET, socket.AF_INET6):
